@@ -64,9 +64,9 @@ def tool_run(main_path: str, scratch: str, want_strings: bool):
         with open(os.path.join(scratch, "ls.txt"), "w") as f:
             f.write(FA.ls_str(main_path, ""))
     else:
-        files, exported, xerr = E.export_real(main_path, timeout=36000)
+        files, exported, xerr = E.export_real(main_path, timeout=36000, sizes_only=True)
     res["acts"]["export"] = "err:" + xerr if xerr else "ok"
-    res["out_bytes"] = sum(len(v) for v in files.values())
+    res["out_bytes"] = sum(v if isinstance(v, int) else len(v) for v in files.values())
     res["out_files"] = len(files)
     return res
 
@@ -121,6 +121,23 @@ def spec_files(spec: dict):
         img = bytearray(img)
         info["_spec"] = spec
         apply_patches(img, spec["patches"], rng, "akai", info)
+        return {"x.img": bytes(img)}, "x.img"
+    if fam == "akai-alias":
+        # every entry of a k-sector directory names ONE m-sector file (KF-C13-aliased-entries): the work `export` does
+        # is the sum of the sizes the directory NAMES, here entries x extent - quadratic in the size of the image
+        k, m = spec["k"], spec["m"]
+        words = GA.random_words(rng, (m * 8192 - 140) // 2)
+        disc = GA.Disc([GA.Partition([GA.Volume("VOL", [GA.SampleFile("ONE", words)], dir_sectors=k, dir_first=True)], sectors=3 + k + m + 1)])
+        img, info = GA.serialize(disc, rng, shapes=("contiguous",))
+        img = bytearray(img)
+        dbase = info["files"][0]["dsecs"][0] * 8192
+        entry = bytes(img[dbase:dbase + 24])
+        n = (k * 8192) // 24 - 1
+        for i in range(n):
+            e = bytearray(entry)
+            e[0:12] = GA.akai_name(f"F{i:05d}")
+            img[dbase + 24 * i: dbase + 24 * i + 24] = e
+        img[dbase + 24 * n: dbase + 24 * n + 24] = bytes(8) + struct.pack("<H", 0xD747) + bytes(14)
         return {"x.img": bytes(img)}, "x.img"
     if fam == "roland":
         disc = GR.random_disc(rng)
@@ -425,6 +442,7 @@ def make_specs(ctx, rng, full: bool):
     for pv in (0, 1, 0xFFFF):
         for pw in ("first", "last"):
             add(family="akai", patches=["psize"], pvalue=pv, pwhich=pw)
+    add(family="akai-alias", k=6, m=24)
     reps = ctx.n(4, 60)
     for kind in akai_kinds:
         for _ in range(reps):
@@ -452,6 +470,8 @@ def spec_kind(spec):
         return "rand-" + spec.get("prefix", "none")
     if spec["family"] == "cdda":
         return "cdda-" + spec["kind"]
+    if spec["family"] == "akai-alias":
+        return "akai-alias-entries"
     return spec["family"] + "-" + "+".join(sorted(set(spec["patches"])))
 
 
@@ -482,7 +502,8 @@ def run(ctx, rep: Report, deep: bool = False):
             # kilobyte-long cue lines are left to the oracle (the model's character-list regex matchers are slow on them)
             long_cue = spec["family"] == "cdda" and spec.get("n", 0) > 100  # also: names beyond the file-system limit fail with OSError in the real tool only
             # the 20000-cluster phantom chain of `key-interleave` is left to the oracle as well (the model walks lists)
-            heavy = "key-interleave" in spec.get("patches", [])
+            # and so is the aliased-entries image: its tie would hold 400 MB of output in the measuring process
+            heavy = "key-interleave" in spec.get("patches", []) or spec["family"] == "akai-alias"
             tie = ctx.model_available and not long_cue and not heavy and (spec["id"] % (1 if spec["family"] != "roland" else 2) == 0)
             meta[spec["id"]] = dict(spec=spec, size=size, dir=d, main=mp, tie=tie)
             pool.submit(spec["id"], (lambda mp=mp, d=d, tie=tie: tool_run(mp, d, tie)), cpu_bound(size), mem_bound(size), 4 * cpu_bound(size) + 20)
